@@ -393,6 +393,110 @@ fn check_ivs(m: &IvsM, rec: &mut Rec) -> CaseResult {
     Ok(())
 }
 
+// ------------------------------------------------------------------ ItemVariationStore: region count at the edges of its field
+
+/// A store value whose region list is longer than anything a small byte string gives: the sub-tables of `base`
+/// (they refer to the first regions only) under a region list continued up to `region_count` regions.
+#[derive(Clone, Debug)]
+struct IvsRegionsM {
+    base: IvsM,
+    region_count: u32,
+    fill: u8,
+}
+
+const FILL_REGIONS: [(i16, i16, i16); 6] = [(0, 0, 0), (0, 8192, 16384), (-16384, -8192, 0), (0, 16384, 16384), (-16384, -16384, 0), (4096, 8192, 12288)];
+
+fn ivs_regions_model(m: &IvsRegionsM) -> IvsM {
+    let mut regions = m.base.regions.clone();
+    let axes = m.base.axis_count as usize;
+    for k in regions.len()..m.region_count as usize {
+        regions.push((0..axes).map(|a| FILL_REGIONS[(m.fill as usize + 7 * k + 3 * a) % FILL_REGIONS.len()]).collect());
+    }
+    IvsM { axis_count: m.base.axis_count, regions, subtables: m.base.subtables.clone(), layout: 0 }
+}
+
+fn ivs_regions_strategy() -> impl Strategy<Value = IvsRegionsM> {
+    // regionCount is a uint16 whose high-order bit is reserved ("must be less than 32768"): both edges of the field
+    let count = prop_oneof![
+        4 => proptest::sample::select(vec![32766u32, 32767, 32768, 32769, 65534, 65535, 65536, 65537]),
+        2 => 32768u32..=65535,
+        2 => 1u32..32768,
+        1 => 65536u32..70000,
+    ];
+    (ivs_strategy(), count, any::<u8>()).prop_map(|(base, count, fill)| {
+        let region_count = count.max(base.regions.len() as u32);
+        IvsRegionsM { base, region_count, fill }
+    })
+}
+
+fn check_ivs_regions(m: &IvsRegionsM, rec: &mut Rec) -> CaseResult {
+    let want = ivs_regions_model(m);
+    let n = want.regions.len();
+    // the value: sub-tables as parsed from my encoding of the small store, region list over my encoding of the long list
+    let small = enc_ivs(&m.base);
+    let s_small = ReadScope::new(&small).read::<ItemVariationStore<'_>>().map_err(|e| fail("ivs:parse", format!("{:?}; {}", e, hexs(&small))))?;
+    let mut rb = Buf::new();
+    for r in &want.regions {
+        for a in r {
+            rb.i16(a.0).i16(a.1).i16(a.2);
+        }
+    }
+    let variation_regions = ReadScope::new(&rb.0).ctxt().read_array_dep::<VariationRegion<'_>>(n, want.axis_count).map_err(|e| crate::engine::Fail::new("harness:array", format!("{:?}", e)))?;
+    let value = ItemVariationStore { variation_region_list: VariationRegionList { variation_regions }, item_variation_data: s_small.item_variation_data.clone() };
+    rec.class(match n {
+        0..=32766 => "ivs-regions:count<32767",
+        32767 => "ivs-regions:count=32767(largest)",
+        32768..=65535 => "ivs-regions:count-32768..65535(reserved-bit)",
+        _ => "ivs-regions:count>65535",
+    });
+    rec.set_nontrivial(n >= 32767);
+    rec.hash_u64(n as u64);
+    rec.hash_bytes(&small);
+    let what = || format!("an ItemVariationStore value with {} regions ({} axes, {} sub-tables)", n, want.axis_count, want.subtables.len());
+    let written = wb::<ItemVariationStore<'_>, _>(&value);
+    if n >= 32768 {
+        // "Must be less than 32768": the count exceeds the (15-bit) field, the value has to be refused
+        let Ok(b) = written else { return Ok(()) };
+        rec.artefact("ivs-written-head", &b[..b.len().min(64)]);
+        let at = b.get(2..6).map(|x| u32::from_be_bytes([x[0], x[1], x[2], x[3]]) as usize);
+        let field = at.and_then(|at| b.get(at + 2..at + 4)).map(|x| u16::from_be_bytes([x[0], x[1]]));
+        let reread = ReadScope::new(&b).read::<ItemVariationStore<'_>>().map(|s| s.variation_region_list.variation_regions.len());
+        // Defect model "the count is only squeezed through 16 bits": written with the count verbatim, reserved bit set
+        if n <= 65535 && field == Some(n as u16) && reread.is_err() {
+            return Err(fail(
+                "ivs:regionCount-reserved-bit-written",
+                format!("{} was written instead of refused: regionCount field {:#06x} has the reserved high bit set (must be < 32768) and the written bytes do not parse ({:?}); head {}", what(), n, reread, hexs(&b[..b.len().min(24)])),
+            ));
+        }
+        return Err(fail("ivs:oversize-region-list-written", format!("{} was written ({} bytes, regionCount field {:?}, re-read {:?}); head {}", what(), b.len(), field, reread, hexs(&b[..b.len().min(24)]))));
+    }
+    let b2 = written.map_err(|e| fail("ivs:write-of-value-refused", format!("{}: {:?}", what(), e)))?;
+    let d2 = dec_ivs(&b2).map_err(|e| fail("ivs:written-undecodable", format!("{}: {}; head {}", what(), e, hexs(&b2))))?;
+    if d2 != want {
+        let first = d2.regions.iter().zip(want.regions.iter()).position(|(x, y)| x != y);
+        return Err(fail("ivs:written-differs", format!("{}: decoded {} regions / {} sub-tables, first differing region {:?}, sub-tables equal: {}; head {}", what(), d2.regions.len(), d2.subtables.len(), first, d2.subtables == want.subtables, hexs(&b2))));
+    }
+    let s2 = ReadScope::new(&b2).read::<ItemVariationStore<'_>>().map_err(|e| fail("ivs:reparse", format!("{}: {:?}; head {}", what(), e, hexs(&b2))))?;
+    if s2.variation_region_list.variation_regions.len() != n {
+        return Err(fail("ivs:value-changed", format!("{}: {} regions after write+read", what(), s2.variation_region_list.variation_regions.len())));
+    }
+    // the sub-tables refer to the first regions only: adjustments of the value and of its re-read copy
+    let axes: Vec<AxisModel> = (0..want.axis_count).map(|i| AxisModel { tag: [b'a', b'x', b'0', b'0' + i as u8], min: -65536, default: 0, max: 65536, flags: 0, name_id: 256 }).collect();
+    let fvar_bytes = fvar_table(&axes, &[], 0);
+    let fvar = ReadScope::new(&fvar_bytes).read::<FvarTable<'_>>().map_err(|e| crate::engine::Fail::new("harness:fvar", format!("{:?}", e)))?;
+    let a1 = ivs_adjustments(&value, &m.base, &fvar).map_err(|e| fail("ivs:adjustment", e))?;
+    let a2 = ivs_adjustments(&s2, &m.base, &fvar).map_err(|e| fail("ivs:adjustment", e))?;
+    if a1 != a2 {
+        return Err(fail("ivs:value-changed", format!("{}: adjustments differ after write+read", what())));
+    }
+    let b3 = wb::<ItemVariationStore<'_>, _>(&s2).map_err(|e| fail("ivs:rewrite-refused", format!("{:?}", e)))?;
+    if b3 != b2 {
+        return Err(fail("ivs:unstable", diff(&b2, &b3)));
+    }
+    rec.evaluations(a1.len() as u64);
+    Ok(())
+}
+
 // ------------------------------------------------------------------ CFF2
 
 fn obs_of_allsorts2(c: &CFF2<'_>) -> Result<Cff2Obs, String> {
@@ -685,12 +789,15 @@ fn check_cff_edge(i: u64, thorough: bool, rec: &mut Rec) -> CaseResult {
             }
             let total = if i == 4 { 0xFF_FFFEu32 } else { 0xFF_FFFF };
             rec.class("edge:index-offSize-3/4");
-            check_index(&IndexM { objs: vec![(3, 1), (total - 3, 2)], off_size: 0, count32: false }, rec)
+            check_index(&IndexM { objs: vec![(3, 1), (total - 3, 2)], off_size: 0, count32: false, pad_empty: 0 }, rec)
         }
         6 => {
-            // IVS with 65536 sub-tables cannot be built through the public API (fields are private): covered by count fields of the readers only
-            rec.class("edge:(none)");
-            Ok(())
+            // an ItemVariationStore with 65536 sub-tables (itemVariationDataCount is a uint16): the one parsed sub-table, repeated
+            let one = enc_ivs(&IvsM { axis_count: 1, regions: vec![vec![(0, 8192, 16384)]], subtables: vec![IvdM { region_indexes: vec![0], word_count: 0, long: false, rows: vec![vec![5]] }], layout: 0 });
+            let s = ReadScope::new(&one).read::<ItemVariationStore<'_>>().map_err(|e| fail("ivs:parse", format!("{:?}", e)))?;
+            let v = ItemVariationStore { variation_region_list: s.variation_region_list.clone(), item_variation_data: vec![s.item_variation_data[0].clone(); 65536] };
+            rec.class("edge:ivs-65536-subtables");
+            refuse("ivs:itemVariationDataCount-truncated", wb::<ItemVariationStore<'_>, _>(&v), "an ItemVariationStore with 65536 sub-tables")
         }
         _ => {
             // Top DICT of an exactly 65535-byte... not constructible through the public API
@@ -724,7 +831,7 @@ pub fn run(ctx: &mut Ctx) {
         rec.class("dict:font(no defaults)");
         check_dict_as::<FontDictDefault>(m, false, false, rec)
     });
-    ctx.section("index", ctx.cases(30_000, 720_000), index_strategy(), |m, rec| check_index(m, rec));
+    ctx.section("index", ctx.cases(30_000, 720_000), index_strategy_with_count_edges(), |m, rec| check_index(m, rec));
     ctx.section(
         "placeholder",
         ctx.cases(24_000, 600_000),
@@ -736,6 +843,7 @@ pub fn run(ctx: &mut Ctx) {
     ctx.section("fdselect", ctx.cases(18_000, 480_000), fdselect_strategy(12, 4), |m, rec| check_fdselect(m, rec));
     ctx.section("cff", ctx.cases(60_000, 1_800_000), cff_strategy(), |m, rec| check_cff(m, rec));
     ctx.section("ivs", ctx.cases(30_000, 960_000), ivs_strategy(), |m, rec| check_ivs(m, rec));
+    ctx.section("ivs-region-count", ctx.cases(80, 24_000), ivs_regions_strategy(), |m, rec| check_ivs_regions(m, rec));
     ctx.section("cff2", ctx.cases(36_000, 1_200_000), cff2_strategy(), |m, rec| check_cff2(m, rec));
     ctx.enumerate("edges-cff", N_CFF_EDGES, true, |i, rec| check_cff_edge(i, thorough, rec));
     let fx = cff_fixture_list(thorough);
